@@ -1318,3 +1318,161 @@ def check_mul_pow2(ctx, prog, rule, label, path, pty, opn, order, full, ts, seed
                             yield sub, mk2, [0] + subst(want, a2), mkc(b2, negative)
                     decide(ctx, I, rule, label, cn, path, mk, {}, negative, [0] + want, mkc(bits, negative), stats, subs)
     return stats
+
+
+# ------------------------------------------------------------------------------------------------ quire image of an accumulated product
+
+def check_quire_image(ctx, prog, q, frac_bits, path, kind, ts, label, full=False, signs=(False, True), kfilter=None, carry=True, seed=1):
+    """QIMAGE: q0 += (p, 2^t) (or (2^t, p), or the single-posit spelling with t = 0) for every posit p of a regime cell: the accumulator must
+    afterwards hold exactly q0 + p * 2^t as a two's-complement fixed-point image, bit for bit (no rounding is involved).  q0 is the cleared
+    quire and, with carry=True, also the constant 2^H - 2^L whose lowest one meets the leading bit of the product, so that the carry runs
+    through the limbs above.  Negative products are partitioned by the lowest set fraction bit of p (then the two's complement is a vector of
+    literals).  kind: 'one' | 'pair' | 'pair_r' | 'inh2'; flip (subtracting spellings) is expressed by the caller through `sub`."""
+    import collections
+    from quire_common import self_ref, final_state
+    from rules_routing import regime_cells
+    pty = q.pty
+    P = pty.posit
+    n, es = pty.bits, pty.es
+    T = sum(b for b, _ in q.fields)
+    I = Interp(prog, max_steps=400000)
+    stats = collections.Counter()
+    maxs = (n - 2) << es
+
+    def const_arg(u):
+        u &= mask(n)
+        sv = u - (1 << n) if u >> (n - 1) else u
+        return AAgg(pty.tykey, [AInt.const(n, True, sv)])
+
+    def const_state(u):
+        fields = []
+        sh = T
+        for (fb_, signed) in q.fields:
+            sh -= fb_
+            c = (u >> sh) & mask(fb_)
+            if signed and c >> (fb_ - 1):
+                c -= 1 << fb_
+            fields.append(AInt.const(fb_, signed, c))
+        return AAgg(q.tykey, fields)
+
+    sub = label.endswith('[sub]')
+    for t in ts:
+        pw = Fraction(2) ** t
+        pw_enc = P.encode(pw)
+        if P.decode(pw_enc) != pw or (kind == 'one' and t != 0):
+            continue
+        for negative in signs:
+            for k, e, fl, known in regime_cells(n, es):
+                if kfilter is not None and not kfilter(k):
+                    continue
+                scale = k * (1 << es) + e + t
+                top = frac_bits + scale                     # position of the product's leading one in the image
+                if top >= T - 2 or top - fl < 0:
+                    continue                                # outside the quire's exact range: nothing claimed
+                neg_img = negative ^ sub
+                variants = []
+                lits0 = [lit(fl - 1 - i) for i in range(fl)]
+                if not neg_img:
+                    variants.append(('', lits0, None))
+                else:
+                    variants.append((' frac=0', [0] * fl, top))
+                    js = list(range(fl)) if (full or fl <= 4) else sorted({0, 1, fl // 2, fl - 1})
+                    for j in js:
+                        variants.append((' low@%d' % j, [lit(fl - 1 - i) if (fl - 1 - i) > j else (1 if (fl - 1 - i) == j else 0) for i in range(fl)], top - fl + j))
+                for vname, lits, l in variants:
+                    img = {top: 1}
+                    for i, b in enumerate(lits):
+                        img[top - 1 - i] = b
+                    q0s = [(0, 'q0=0')]
+                    if carry and top + 70 < T - 2:
+                        H = min(T - 3, top + 130)
+                        q0s.append(((1 << H) - (1 << top), 'q0=2^%d-2^%d' % (H, top)))
+                    for q0, qname in q0s:
+                        if q0 and neg_img:
+                            continue                        # the carry variant is checked for positive products only
+                        if not neg_img:
+                            abits = {pos: (q0 >> pos) & 1 for pos in range(T)}
+                            sm = _sym_sum(abits, img)
+                        else:
+                            # two's complement image of -(product): bits above l complemented, bit l one, below zero, sign-extended
+                            sm = {}
+                            for pos in range(T):
+                                y = img.get(pos, 0)
+                                if pos < l:
+                                    sm[pos] = 0
+                                elif pos == l:
+                                    sm[pos] = 1
+                                else:
+                                    sm[pos] = (y[0], y[1], y[2], not y[3]) if is_lit(y) else 1 - y
+                        if sm is None:
+                            continue
+                        want = [sm.get(pos, 0) for pos in range(T - 1, -1, -1)]
+                        bits = [0] + list(known) + list(lits)
+                        cname = '%s t=%d %s k=%d e=%d%s %s' % (label, t, '-' if negative else '+', k, e, vname, qname)
+                        stats['cells'] += 1
+                        st0 = const_state(q0)
+                        ref = self_ref(st0, True)
+                        pv = posit_input(pty, bits, negative)
+                        ov = const_arg(pw_enc)
+                        if kind == 'one':
+                            args = [ref, pv]
+                        elif kind == 'pair':
+                            args = [ref, AAgg('(tuple)', [pv, ov])]
+                        elif kind == 'pair_r':
+                            args = [ref, AAgg('(tuple)', [ov, pv])]
+                        else:
+                            args = [ref, pv, ov]
+                        try:
+                            o = I.run(path, args)
+                        except Exception as ex:
+                            stats['unsupported'] += 1
+                            continue
+                        if o.kind != 'return':
+                            stats['undecided'] += 1
+                            continue
+                        fin = final_state(I, o, args)
+                        got = []
+                        for f in fin.fields:
+                            got += sym_msb_first(f)
+                        if any(b is None for b in got):
+                            stats['undecided'] += 1
+                            continue
+                        if got == want:
+                            stats['proved'] += 1
+                            continue
+                        # confirm on concrete members of the cell before reporting
+                        confirmed = None
+                        for fill in (0, 1):
+                            u = 0
+                            for b in bits:
+                                u = (u << 1) | (fill if is_lit(b) else b)
+                            uu = (-u) & mask(n) if negative else u
+                            val = P.decode(uu) * pw
+                            if sub:
+                                val = -val
+                            exp_img = (q0 + int(val * (1 << frac_bits))) & mask(T)
+                            ref2 = self_ref(const_state(q0), True)
+                            a2 = {'one': [ref2, const_arg(uu)], 'pair': [ref2, AAgg('(tuple)', [const_arg(uu), ov])],
+                                  'pair_r': [ref2, AAgg('(tuple)', [ov, const_arg(uu)])], 'inh2': [ref2, const_arg(uu), ov]}[kind]
+                            o2 = I.run(path, a2)
+                            if o2.kind != 'return':
+                                continue
+                            f2 = final_state(I, o2, a2)
+                            img2 = 0
+                            okc = True
+                            for f, (fb_, _) in zip(f2.fields, q.fields):
+                                if not f.is_const():
+                                    okc = False
+                                    break
+                                img2 = (img2 << fb_) | f.uval()
+                            if okc and img2 != exp_img:
+                                confirmed = (uu, img2, exp_img)
+                                break
+                        if confirmed:
+                            f = ctx.finding('QIMAGE', label, 'image', '%s: after accumulating p = %#x (times 2^%d) onto %s the accumulator holds %#x, the exact fixed-point image is %#x (cell %s)'
+                                            % (label, confirmed[0], t, qname, confirmed[1], confirmed[2], cname), {'function': path, 'cells': []})
+                            f.details.setdefault('cells', []).append(cname)
+                            stats['refuted'] += 1
+                        else:
+                            stats['undecided'] += 1
+    return stats
